@@ -304,14 +304,25 @@ func (ww *WW) Exec(op Op) *Event {
 		t := ww.Tokens[op.Tok]
 		var got uint64
 		if t == nil || t.Taken {
-			return ww.emit("receive", map[string]any{"w": op.W, "tok": op.Tok, "swap": op.Swap, "tokmint": "", "value": 0, "tokfee": 0, "locked": "", "lockclass": "plain", "default": ""},
+			return ww.emit("receive", map[string]any{"w": op.W, "tok": op.Tok, "swap": op.Swap, "tokmint": "", "value": 0, "tokfee": 0, "locked": "", "lockclass": "plain", "default": "", "inlist": true},
 				map[string]any{"ok": false, "panic": false, "detail": "no such token", "amount": 0, "skipped": true})
+		}
+		inList := false
+		for _, u := range ws.W.TrustedMints() {
+			if u == ww.Mints[t.Mint].URL {
+				inList = true
+			}
+		}
+		if op.Swap {
+			// the Lightning payment of a swap to the trusted mint is made by the token's mint
+			setScript(ww.Mints[t.Mint].W, "*", op.Pay, op.Status)
 		}
 		err, pan, msg := ww.guard(func() error {
 			var e error
 			got, e = ws.W.Receive(t.Token, op.Swap)
 			return e
 		})
+		setScriptClear(ww.Mints[t.Mint].W, "*")
 		r := result(err, pan, msg)
 		r["amount"] = int(got)
 		r["skipped"] = false
@@ -326,7 +337,7 @@ func (ww *WW) Exec(op Op) *Event {
 			}
 		}
 		return ww.emit("receive", map[string]any{"w": op.W, "tok": op.Tok, "swap": op.Swap, "tokmint": t.Mint, "value": sum(t.Proofs),
-			"tokfee": ww.feeOf(t.Mint, t.Proofs), "locked": t.Locked, "lockclass": lockclass, "default": ws.Default}, r)
+			"tokfee": ww.feeOf(t.Mint, t.Proofs), "locked": t.Locked, "lockclass": lockclass, "default": ws.Default, "inlist": inList}, r)
 
 	case "melt":
 		ms := ww.Mints[op.M]
@@ -397,11 +408,13 @@ func (ww *WW) Exec(op Op) *Event {
 
 	case "mintswap":
 		var amt uint64
+		setScript(ww.Mints[op.From].W, "*", op.Pay, op.Status)
 		err, pan, msg := ww.guard(func() error {
 			var e error
 			amt, e = ws.W.MintSwap(op.Amt, ww.Mints[op.From].URL, ww.Mints[op.To].URL)
 			return e
 		})
+		setScriptClear(ww.Mints[op.From].W, "*")
 		r := result(err, pan, msg)
 		r["amount"] = int(amt)
 		return ww.emit("mintswap", map[string]any{"w": op.W, "from": op.From, "to": op.To, "amt": int(op.Amt)}, r)
@@ -515,7 +528,9 @@ func (ww *WW) opRestore(op Op) *Event {
 			ws.W, ws.DB, ws.Raw, ws.Dir = w2, wrapped, wrapped.Inner, dir
 		}
 	}
-	return ww.emit("restore", map[string]any{"w": op.W, "seedlive": live, "nseedlive": nlive, "aftercrash": afterCrash}, r)
+	// the restore's own state checks make the mint look up in-flight payments: what is live may have changed under it
+	livePost, _ := ww.seedLive(op.W)
+	return ww.emit("restore", map[string]any{"w": op.W, "seedlive": live, "seedlivepost": livePost, "nseedlive": nlive, "aftercrash": afterCrash}, r)
 }
 
 func setScript(w *world.World, hash string, pay, status []string) {
@@ -524,6 +539,8 @@ func setScript(w *world.World, hash string, pay, status []string) {
 	}
 	w.SetScript(hash, pay, status)
 }
+
+func setScriptClear(w *world.World, hash string) { w.ClearScript(hash) }
 
 func decodeHash(request string) (string, error) {
 	return world.PaymentHashOf(request)
